@@ -164,6 +164,8 @@ impl PktRec {
 pub struct DgRec {
     pub id: u64,
     pub size: usize,
+    /// hash of the datagram bytes as emitted
+    pub hash: u64,
     pub pkts: Vec<PktRec>,
     /// What the link did with it
     pub fate: &'static str,
@@ -221,6 +223,18 @@ pub struct ConnState {
     pub dirty: bool,
     pub remote_cid_len: usize,
     pub last_rx_us: u64,
+    pub last_service_at: u64,
+    pub services_at_instant: u32,
+    pub lost_at: Option<u64>,
+    pub drained_at: Option<u64>,
+    pub lost_events: u32,
+    pub events_after_lost: Vec<String>,
+    /// time the local application called close() (set by checks that close from outside the app)
+    pub closed_at: Option<u64>,
+    /// last time a datagram made `total_authed_packets` advance (only tracked when World::track_auth)
+    pub last_auth_rx_us: Option<u64>,
+    /// largest PTO (any space, µs) observed immediately before/after processing a datagram
+    pub max_pto_us: u64,
 }
 
 pub struct EpState {
@@ -348,6 +362,10 @@ pub struct World {
     pub max_lateness: u64,
     /// DATAGRAM frames (id, len) carried by each emitted UDP datagram, for the receive-buffer model
     pub dgram_frames: BTreeMap<u64, Vec<(Option<u64>, usize)>>,
+    /// drop every datagram emitted at or after this time (the peer disappears / path blackholes)
+    pub blackhole_at: Option<u64>,
+    /// sample total_authed_packets around every delivery (costly; used by C08)
+    pub track_auth: bool,
     pub client_token_store: Option<Arc<dyn quinn_proto::TokenStore>>,
     pub server_token_log: Option<Arc<dyn quinn_proto::TokenLog>>,
 }
@@ -380,7 +398,7 @@ pub fn addr_v4(host: u8, port: u16) -> SocketAddr {
 impl World {
     pub fn new(spec: NetSpec) -> Self {
         let epoch = process_epoch() + Duration::from_secs(3600) + Duration::from_micros(spec.time_shift_us);
-        let clock = SimClock(Arc::new(AtomicU64::new(spec.time_shift_us)));
+        let clock = SimClock(Arc::new(AtomicU64::new(0)));
         let mut scc = SimClientConfig::new();
         scc.use_tickets = false;
         let mut ssc = SimServerConfig::new();
@@ -418,6 +436,8 @@ impl World {
             lateness_total: 0,
             max_lateness: 0,
             dgram_frames: BTreeMap::new(),
+            blackhole_at: None,
+            track_auth: false,
             client_token_store: None,
             server_token_log: None,
             spec,
@@ -532,6 +552,15 @@ impl World {
             dirty: true,
             remote_cid_len: self.spec.server_ep.cid_len as usize,
             last_rx_us: self.now,
+            last_service_at: u64::MAX,
+            services_at_instant: 0,
+            lost_at: None,
+            drained_at: None,
+            lost_events: 0,
+            events_after_lost: vec![],
+            closed_at: None,
+            last_auth_rx_us: None,
+            max_pto_us: 0,
         });
         Ok(k)
     }
@@ -666,10 +695,15 @@ impl World {
         if !dfr.is_empty() {
             self.dgram_frames.insert(id, dfr);
         }
-        let mut rec = DgRec { id, size, pkts, fate: "deliver" };
+        let mut rec = DgRec { id, size, hash: crate::core::hash64(&bytes), pkts, fate: "deliver" };
         if size > self.link_mtu() {
             self.stats.dgrams_mtu_dropped += 1;
             rec.fate = "mtu-drop";
+            return rec;
+        }
+        if self.blackhole_at.is_some_and(|t| self.now >= t) {
+            self.stats.dgrams_dropped += 1;
+            rec.fate = "blackhole";
             return rec;
         }
         let faults = if dir == 0 { &self.spec.faults_c2s } else { &self.spec.faults_s2c };
@@ -833,6 +867,15 @@ impl World {
                     if self.record {
                         self.trace.push(Rec::Timeout { t: self.now, conn: k, deadline: 0, spurious: true });
                     }
+                    // extra polls right after poll_transmit returned None and a no-op timeout:
+                    // each must return nothing
+                    let mut buf = Vec::new();
+                    if let Some(t) = self.conns[k].c.poll_transmit(now, 1, &mut buf) {
+                        self.viol.push(Viol {
+                            sig: "c20/extra-poll-transmit".into(),
+                            msg: format!("conn {k}: poll_transmit returned a {}-byte transmit right after it had returned None and a handle_timeout with no timer due", t.size),
+                        });
+                    }
                 }
             }
             // 2. timeout
@@ -864,6 +907,7 @@ impl World {
                 progressed = true;
                 if e.is_drained() {
                     self.conns[k].drained_events += 1;
+                    self.conns[k].drained_at.get_or_insert(self.now);
                     if self.record {
                         self.trace.push(Rec::Drained { t: self.now, conn: k });
                     }
@@ -879,6 +923,20 @@ impl World {
                     self.conns[k].c.handle_event(ce);
                 }
                 if drained {
+                    // a drained connection produces no further output
+                    let now = self.now_instant();
+                    let cs = &mut self.conns[k];
+                    cs.c.handle_timeout(now);
+                    let mut buf = Vec::new();
+                    let tx = cs.c.poll_transmit(now, 10, &mut buf).is_some();
+                    let to = cs.c.poll_timeout().is_some();
+                    let ee = cs.c.poll_endpoint_events().is_some();
+                    if tx || to || ee {
+                        self.viol.push(Viol {
+                            sig: "c20/output-after-drained".into(),
+                            msg: format!("conn {k} after Drained: poll_transmit some={tx}, poll_timeout some={to} (armed: {:?}), endpoint event some={ee}", self.conns[k].c.verif_probe().timers_armed),
+                        });
+                    }
                     self.conns[k].gone = true;
                     self.eps[ep].by_handle.remove(&ch.0);
                 }
@@ -889,6 +947,12 @@ impl World {
             let cs = &mut self.conns[k];
             while let Some(ev) = cs.c.poll() {
                 progressed = true;
+                if let quinn_proto::Event::ConnectionLost { .. } = &ev {
+                    cs.lost_events += 1;
+                    cs.lost_at.get_or_insert(self.now);
+                } else if cs.lost_at.is_some() {
+                    cs.events_after_lost.push(format!("{ev:?}"));
+                }
                 if self.record {
                     let s = format!("{ev:?}");
                     if let quinn_proto::Event::ConnectionLost { reason } = &ev {
@@ -927,7 +991,22 @@ impl World {
                 Some(k) => {
                     self.conns[k].last_rx_us = self.now;
                     let before = self.conns[k].c.stats().frame_rx.datagram;
+                    let mut authed_before = 0;
+                    if self.track_auth {
+                        let p = self.conns[k].c.verif_probe();
+                        authed_before = p.total_authed_packets;
+                        let m = p.pto.iter().map(|d| d.as_micros() as u64).max().unwrap_or(0);
+                        self.conns[k].max_pto_us = self.conns[k].max_pto_us.max(m);
+                    }
                     self.conns[k].c.handle_event(ce);
+                    if self.track_auth {
+                        let p = self.conns[k].c.verif_probe();
+                        let m = p.pto.iter().map(|d| d.as_micros() as u64).max().unwrap_or(0);
+                        self.conns[k].max_pto_us = self.conns[k].max_pto_us.max(m);
+                        if p.total_authed_packets > authed_before {
+                            self.conns[k].last_auth_rx_us = Some(self.now);
+                        }
+                    }
                     self.conns[k].dirty = true;
                     if let Some(frames) = self.dgram_frames.get(&f.dgram_id) {
                         let after = self.conns[k].c.stats().frame_rx.datagram;
@@ -986,7 +1065,8 @@ impl World {
                 }
                 Err(e) => {
                     let inc = e.into_incoming();
-                    self.accept(ep, inc);
+                    let t = self.now;
+                    self.accept(ep, inc, t);
                 }
             }
             return;
@@ -996,10 +1076,11 @@ impl World {
             self.eps[ep].pending_incoming.push((at, inc));
             return;
         }
-        self.accept(ep, inc);
+        let t = self.now;
+        self.accept(ep, inc, t);
     }
 
-    fn accept(&mut self, ep: usize, inc: Incoming) {
+    fn accept(&mut self, ep: usize, inc: Incoming, recv_at: u64) {
         let odcid = inc.orig_dst_cid().to_vec();
         let now = self.now_instant();
         let mut buf = Vec::new();
@@ -1036,6 +1117,15 @@ impl World {
                     dirty: true,
                     remote_cid_len: self.spec.client_ep.cid_len as usize,
                     last_rx_us: self.now,
+                    last_service_at: u64::MAX,
+                    services_at_instant: 0,
+                    lost_at: None,
+                    drained_at: None,
+                    lost_events: 0,
+                    events_after_lost: vec![],
+                    closed_at: None,
+                    last_auth_rx_us: Some(recv_at),
+                    max_pto_us: 0,
                 });
                 if let Some(p) = peer {
                     self.conns[p].peer = Some(k);
@@ -1147,19 +1237,20 @@ impl World {
             let Some(t) = self.next_time() else { return true };
             if t > until_us {
                 self.now = until_us.max(self.now);
-                self.clock.0.store(self.now + self.spec.time_shift_us, Ordering::Relaxed);
+                self.clock.0.store(self.now, Ordering::Relaxed);
                 return true;
             }
             if t > self.now {
                 self.now = t;
-                self.clock.0.store(self.now + self.spec.time_shift_us, Ordering::Relaxed);
+                self.clock.0.store(self.now, Ordering::Relaxed);
             }
             // pending accepts
             for ep in 0..self.eps.len() {
                 let due: Vec<usize> = self.eps[ep].pending_incoming.iter().enumerate().filter(|(_, (at, _))| *at <= self.now).map(|(i, _)| i).collect();
                 for i in due.into_iter().rev() {
-                    let (_, inc) = self.eps[ep].pending_incoming.remove(i);
-                    self.accept(ep, inc);
+                    let (at, inc) = self.eps[ep].pending_incoming.remove(i);
+                    let recv_at = at.saturating_sub(self.spec.srv.accept_delay_us as u64);
+                    self.accept(ep, inc, recv_at);
                 }
             }
             let timeouts_first = self.spec.drv.timeout_first;
@@ -1185,6 +1276,20 @@ impl World {
                 if svc <= self.now {
                     let now = self.now_instant();
                     self.stats.timeouts += 1;
+                    if self.conns[k].last_service_at == self.now {
+                        self.conns[k].services_at_instant += 1;
+                        if self.conns[k].services_at_instant > 200 {
+                            self.viol.push(Viol {
+                                sig: "c20/timeouts-do-not-converge".into(),
+                                msg: format!("conn {k}: handle_timeout was needed {} times at instant {} us and poll_timeout() is still not in the future", self.conns[k].services_at_instant, self.now),
+                            });
+                            self.conns[k].deadline = None;
+                            continue;
+                        }
+                    } else {
+                        self.conns[k].last_service_at = self.now;
+                        self.conns[k].services_at_instant = 1;
+                    }
                     let late = self.now.saturating_sub(d);
                     self.lateness_total += late;
                     self.max_lateness = self.max_lateness.max(late);
@@ -1205,6 +1310,28 @@ impl World {
             v.extend(l.borrow_mut().viol.drain(..));
         }
         v
+    }
+
+    /// Stateless reset token an endpoint of this world issues for `cid` (SimHmac reset key)
+    pub fn reset_token_for(&self, ep: usize, cid: &[u8]) -> [u8; 16] {
+        use quinn_proto::crypto::HmacKey;
+        let key = SimHmac(crate::core::mix(crate::core::mix(self.spec.seed, ep as u64), 0xe9));
+        let mut sig = [0u8; 32];
+        key.sign(cid, &mut sig);
+        sig[..16].try_into().unwrap()
+    }
+
+    /// Human-readable dump of (part of) the trace for failure messages (only when QV_TRACE is set)
+    pub fn dump_trace(&self, from: usize, max: usize) -> String {
+        if std::env::var("QV_TRACE").is_err() {
+            return String::new();
+        }
+        let mut s = String::from("trace:\n");
+        for rec in self.trace.iter().skip(from).take(max) {
+            let t = format!("{rec:?}");
+            s += &format!("   {}\n", &t[..t.len().min(600)]);
+        }
+        s
     }
 
     pub fn faults_exhausted(&self) -> bool {
